@@ -25,6 +25,11 @@ def linear_form(e, symmap, wrappers=IDENTITY_WRAPPERS, consts=None):
                 if out[k] == 0:
                     del out[k]
             return out
+        if isinstance(n, ast.BinOp) and isinstance(n.op, ast.Mult):
+            # integer constant * linear form
+            for c_, o_ in ((n.left, n.right), (n.right, n.left)):
+                if isinstance(c_, ast.Constant) and isinstance(c_.value, int) and not isinstance(c_.value, bool):
+                    return {k: c_.value * v for k, v in rec(o_).items() if c_.value * v != 0}
         if isinstance(n, ast.UnaryOp) and isinstance(n.op, ast.USub):
             return {k: -v for k, v in rec(n.operand).items()}
         if isinstance(n, ast.Call):
